@@ -37,6 +37,8 @@ func main() {
 		switch id {
 		case "C02":
 			wireCheck(c, "C02", true, nil)
+		case "C03":
+			checkC03(c)
 		case "C09":
 			wireCheck(c, "C09", false, nil)
 		case "C10":
